@@ -103,9 +103,15 @@ def simulation(args_dict):
                 sim.model = models.expand_grid_model(
                         sim.model, expand, interface)
 
-        # Set layered according to user input if it differs.
-        layered = cfg['simulation_options'].get('layered', False)
-        if sim.layered != layered:
+        # Set layered according to user input, if provided and it differs.
+        layered = cfg['simulation_options'].get('layered', None)
+        lopts = cfg['simulation_options'].get('layered_opts', None)
+        if lopts is not None:
+            logger.info(f"Change «layered_opts» of simulation to {lopts}.")
+            sim.clean('computed')
+            sim.layered_opts = lopts
+            sim.layered = sim.layered if layered is None else layered
+        elif layered is not None and sim.layered != layered:
             logger.info(f"Change «layered» of simulation to {layered}.")
             sim.layered = layered
 
